@@ -500,6 +500,10 @@ func init() {
 					})
 				}
 			}
+			// Sorted, so that the same sorted set always has the same encoding.
+			slices.SortFunc(members, func(a, b persistedMember) int {
+				return cmp.Compare(a.Value, b.Value)
+			})
 			b, err := json.Marshal(members)
 			return b, true, err
 		},
